@@ -8,11 +8,13 @@ import (
 	"time"
 
 	corev1 "k8s.io/api/core/v1"
+	apierrors "k8s.io/apimachinery/pkg/api/errors"
 	metav1 "k8s.io/apimachinery/pkg/apis/meta/v1"
 	clocktesting "k8s.io/utils/clock/testing"
 	"sigs.k8s.io/controller-runtime/pkg/client"
 
 	v1 "sigs.k8s.io/karpenter/pkg/apis/v1"
+	fakecp "sigs.k8s.io/karpenter/pkg/cloudprovider/fake"
 	"sigs.k8s.io/karpenter/pkg/controllers/disruption"
 	"sigs.k8s.io/karpenter/pkg/controllers/state"
 	"sigs.k8s.io/karpenter/pkg/test"
@@ -37,6 +39,13 @@ type EvIn struct {
 	Claim *ClaimIn `json:"claim,omitempty"`
 	Node  *NodeIn  `json:"node,omitempty"`
 	F     *RFault  `json:"f,omitempty"` // reconcile: the faults injected into that run of the controller
+	// c07.commands only (see commands.go)
+	Real      int    `json:"real,omitempty"`      // record: pending pods the scheduling result places on the node
+	Virt      int    `json:"virt,omitempty"`      // record: virtual capacity-buffer pods it places on the node
+	NewClaims int    `json:"newClaims,omitempty"` // record: new NodeClaims of the same result
+	NewPods   int    `json:"newPods,omitempty"`   // record: pods on each new NodeClaim
+	M         string `json:"m,omitempty"`         // start: the method whose command is handed to the queue
+	QF        string `json:"qf,omitempty"`        // queue: "" | "delete-error" | "replacement-lost"
 }
 
 type HistIn struct {
@@ -57,7 +66,17 @@ type HistOut struct {
 var methodOrder = []string{"Emptiness", "StaticDrift", "Drift", "MultiNodeConsolidation", "SingleNodeConsolidation"}
 
 // swapClient lets the harness replace the API contents while the cluster keeps one client reference.
-type swapClient struct{ client.Client }
+type swapClient struct {
+	client.Client
+	failClaimDelete bool // c07.commands: the API refuses to delete NodeClaims (server error)
+}
+
+func (s *swapClient) Delete(ctx context.Context, obj client.Object, opts ...client.DeleteOption) error {
+	if _, ok := obj.(*v1.NodeClaim); ok && s.failClaimDelete {
+		return apierrors.NewInternalError(fmt.Errorf("injected"))
+	}
+	return s.Client.Delete(ctx, obj, opts...)
+}
 
 type hist struct {
 	ctx     context.Context
@@ -101,15 +120,22 @@ func (h *hist) rebuild() {
 	h.sw.Client = newClient(objs...)
 }
 
-func implHistory(raw json.RawMessage) (any, error) {
-	var in HistIn
-	if err := json.Unmarshal(raw, &in); err != nil {
-		return nil, err
-	}
+// histRun is one history under way: the real cluster state, queue and methods over the swappable API contents.
+type histRun struct {
+	h        *hist
+	cloud    *fakecp.CloudProvider
+	recorder *test.EventRecorder
+	cluster  *state.Cluster
+	queue    *disruption.Queue
+	byName   map[string]disruption.Method
+	cmd      *disruption.Command // the command handed to the queue last (c07.commands)
+}
+
+func newHistRun(in *HistIn) (*histRun, error) {
 	if in.Start%int64(time.Second) != 0 {
 		return nil, fmt.Errorf("start must be a whole number of seconds")
 	}
-	h := &hist{ctx: baseCtx(in.BatchMax), clk: clocktesting.NewFakeClock(at(in.Start)), sw: &swapClient{}, in: &in}
+	h := &hist{ctx: baseCtx(in.BatchMax), clk: clocktesting.NewFakeClock(at(in.Start)), sw: &swapClient{}, in: in}
 	var err error
 	if in.Pool.Exists {
 		if h.pool, err = buildPool(in.Pool); err != nil {
@@ -134,107 +160,136 @@ func implHistory(raw json.RawMessage) (any, error) {
 		h.pdbObjs = append(h.pdbObjs, pb)
 	}
 	h.rebuild()
-	cloud := newCloud(in.Pool.HasITs)
-	recorder := test.NewEventRecorder()
-	cluster := state.NewCluster(h.clk, h.sw, cloud)
-	queue := disruption.NewQueue(h.sw, recorder, cluster, h.clk, nil)
-	methods := disruption.NewMethods(h.clk, cluster, h.sw, nil, cloud, recorder, queue)
-	byName := map[string]disruption.Method{}
+	r := &histRun{h: h, cloud: newCloud(in.Pool.HasITs), recorder: test.NewEventRecorder()}
+	r.cluster = state.NewCluster(h.clk, h.sw, r.cloud)
+	r.queue = disruption.NewQueue(h.sw, r.recorder, r.cluster, h.clk, nil)
+	methods := disruption.NewMethods(h.clk, r.cluster, h.sw, nil, r.cloud, r.recorder, r.queue)
+	r.byName = map[string]disruption.Method{}
 	for _, m := range methods {
-		byName[methodName(m)] = m
+		r.byName[methodName(m)] = m
 	}
-	if len(byName) != len(methodOrder) {
-		return nil, fmt.Errorf("NewMethods returned %d methods, the harness knows %d", len(byName), len(methodOrder))
+	if len(r.byName) != len(methodOrder) {
+		return nil, fmt.Errorf("NewMethods returned %d methods, the harness knows %d", len(r.byName), len(methodOrder))
+	}
+	return r, nil
+}
+
+// apply delivers one of the base events of c07.history
+func (r *histRun) apply(i int, ev EvIn) error {
+	h, cluster, cloud := r.h, r.cluster, r.cloud
+	switch ev.K {
+	case "tick":
+		if ev.D < 0 {
+			return fmt.Errorf("negative tick")
+		}
+		h.clk.Step(time.Duration(ev.D))
+	case "claim":
+		if ev.Claim != nil {
+			if ev.Claim.InitAt%int64(time.Second) != 0 || (ev.Claim.LastPodEvent != nil && *ev.Claim.LastPodEvent%int64(time.Second) != 0) {
+				return fmt.Errorf("event %d: stored times must be whole seconds", i)
+			}
+			nc, err := buildClaim(ev.Claim, h.node != nil)
+			if err != nil {
+				return err
+			}
+			h.claim = nc
+			h.rebuild()
+			cluster.UpdateNodeClaim(nc.DeepCopy())
+		} else {
+			h.claim = nil
+			h.rebuild()
+			cluster.DeleteNodeClaim(claimName)
+		}
+	case "node":
+		if ev.Node != nil {
+			n, err := buildNode(ev.Node)
+			if err != nil {
+				return err
+			}
+			h.node = n
+			h.rebuild()
+			if err := cluster.UpdateNode(h.ctx, n.DeepCopy()); err != nil {
+				return fmt.Errorf("UpdateNode: %w", err)
+			}
+		} else {
+			h.node = nil
+			h.rebuild()
+			cluster.DeleteNode(nodeName)
+		}
+	case "mark":
+		cluster.MarkForDeletion(providerID)
+	case "unmark":
+		cluster.UnmarkForDeletion(providerID)
+	case "nominate":
+		cluster.NominateNodeForPod(h.ctx, providerID)
+	case "podEvent":
+		if h.claim != nil {
+			// what the podevents controller persists; the API keeps whole seconds
+			stored := &v1.NodeClaim{}
+			if err := h.sw.Get(h.ctx, client.ObjectKey{Name: claimName}, stored); err != nil {
+				return err
+			}
+			stored.Status.LastPodEventTime = metav1.Time{Time: h.clk.Now()}
+			if err := h.sw.Status().Update(h.ctx, stored); err != nil {
+				return fmt.Errorf("podEvent status update: %w", err)
+			}
+			got := &v1.NodeClaim{}
+			if err := h.sw.Get(h.ctx, client.ObjectKey{Name: claimName}, got); err != nil {
+				return err
+			}
+			h.claim = got
+			cluster.UpdateNodeClaim(got.DeepCopy())
+		}
+	case "reconcile":
+		if h.claim != nil {
+			got, err := runClaimController(h.ctx, h.clk, h.sw, cloud, h.claim.StatusConditions().Get(v1.ConditionTypeDrifted).IsTrue(), ev.F)
+			if err != nil {
+				return err
+			}
+			h.claim = got
+			cluster.UpdateNodeClaim(got.DeepCopy())
+		}
+	default:
+		return fmt.Errorf("bad event %q", ev.K)
+	}
+	return nil
+}
+
+// observe: for each method (in methodOrder) whether the node is in GetCandidates
+func (r *histRun) observe() ([]bool, error) {
+	row := make([]bool, len(methodOrder))
+	for j, name := range methodOrder {
+		m := r.byName[name]
+		cands, err := disruption.GetCandidates(r.h.ctx, r.cluster, r.h.sw, r.recorder, r.h.clk, r.cloud, m.ShouldDisrupt, m.Class(), r.queue)
+		if err != nil {
+			return nil, fmt.Errorf("GetCandidates: %w", err)
+		}
+		for _, cn := range cands {
+			if cn.ProviderID() == providerID {
+				row[j] = true
+			}
+		}
+	}
+	return row, nil
+}
+
+func implHistory(raw json.RawMessage) (any, error) {
+	var in HistIn
+	if err := json.Unmarshal(raw, &in); err != nil {
+		return nil, err
+	}
+	r, err := newHistRun(&in)
+	if err != nil {
+		return nil, err
 	}
 	out := &HistOut{Sel: [][]bool{}}
 	for i, ev := range in.Events {
-		switch ev.K {
-		case "tick":
-			if ev.D < 0 {
-				return nil, fmt.Errorf("negative tick")
-			}
-			h.clk.Step(time.Duration(ev.D))
-		case "claim":
-			if ev.Claim != nil {
-				if ev.Claim.InitAt%int64(time.Second) != 0 || (ev.Claim.LastPodEvent != nil && *ev.Claim.LastPodEvent%int64(time.Second) != 0) {
-					return nil, fmt.Errorf("event %d: stored times must be whole seconds", i)
-				}
-				nc, err := buildClaim(ev.Claim, h.node != nil)
-				if err != nil {
-					return nil, err
-				}
-				h.claim = nc
-				h.rebuild()
-				cluster.UpdateNodeClaim(nc.DeepCopy())
-			} else {
-				h.claim = nil
-				h.rebuild()
-				cluster.DeleteNodeClaim(claimName)
-			}
-		case "node":
-			if ev.Node != nil {
-				n, err := buildNode(ev.Node)
-				if err != nil {
-					return nil, err
-				}
-				h.node = n
-				h.rebuild()
-				if err := cluster.UpdateNode(h.ctx, n.DeepCopy()); err != nil {
-					return nil, fmt.Errorf("UpdateNode: %w", err)
-				}
-			} else {
-				h.node = nil
-				h.rebuild()
-				cluster.DeleteNode(nodeName)
-			}
-		case "mark":
-			cluster.MarkForDeletion(providerID)
-		case "unmark":
-			cluster.UnmarkForDeletion(providerID)
-		case "nominate":
-			cluster.NominateNodeForPod(h.ctx, providerID)
-		case "podEvent":
-			if h.claim != nil {
-				// what the podevents controller persists; the API keeps whole seconds
-				stored := &v1.NodeClaim{}
-				if err := h.sw.Get(h.ctx, client.ObjectKey{Name: claimName}, stored); err != nil {
-					return nil, err
-				}
-				stored.Status.LastPodEventTime = metav1.Time{Time: h.clk.Now()}
-				if err := h.sw.Status().Update(h.ctx, stored); err != nil {
-					return nil, fmt.Errorf("podEvent status update: %w", err)
-				}
-				got := &v1.NodeClaim{}
-				if err := h.sw.Get(h.ctx, client.ObjectKey{Name: claimName}, got); err != nil {
-					return nil, err
-				}
-				h.claim = got
-				cluster.UpdateNodeClaim(got.DeepCopy())
-			}
-		case "reconcile":
-			if h.claim != nil {
-				got, err := runClaimController(h.ctx, h.clk, h.sw, cloud, h.claim.StatusConditions().Get(v1.ConditionTypeDrifted).IsTrue(), ev.F)
-				if err != nil {
-					return nil, err
-				}
-				h.claim = got
-				cluster.UpdateNodeClaim(got.DeepCopy())
-			}
-		default:
-			return nil, fmt.Errorf("bad event %q", ev.K)
+		if err := r.apply(i, ev); err != nil {
+			return nil, err
 		}
-		row := make([]bool, len(methodOrder))
-		for j, name := range methodOrder {
-			m := byName[name]
-			cands, err := disruption.GetCandidates(h.ctx, cluster, h.sw, recorder, h.clk, cloud, m.ShouldDisrupt, m.Class(), queue)
-			if err != nil {
-				return nil, fmt.Errorf("GetCandidates: %w", err)
-			}
-			for _, cn := range cands {
-				if cn.ProviderID() == providerID {
-					row[j] = true
-				}
-			}
+		row, err := r.observe()
+		if err != nil {
+			return nil, err
 		}
 		out.Sel = append(out.Sel, row)
 	}
